@@ -125,14 +125,20 @@ func escape(s string, m map[rune]string) string {
 			v = append(v, `\`+string(c))
 		default:
 			var s string
-			if IsControl(c) {
+
+			// A backslash or a quote right after a prefix would be read as an
+			// escape of its own (and a quote would end a quoted sequence): the
+			// few characters that decode to one are written in hexadecimal.
+			plain := func(c rune) bool { return c != '\\' && c != '"' && c != '\'' }
+
+			if IsControl(c) && plain(Decontrol(c)) {
 				s += `\C-`
 				c = Decontrol(c)
 			}
 
 			// The reader takes the character after \M- literally, so only
 			// use the prefix when what follows is printable.
-			if IsMeta(c) && unicode.IsPrint(Demeta(c)) {
+			if IsMeta(c) && unicode.IsPrint(Demeta(c)) && plain(Demeta(c)) {
 				s += `\M-`
 				c = Demeta(c)
 			}
